@@ -1075,6 +1075,26 @@ def _isfinite(ex, st, args, kwargs):
         yield st, True  # symbolic floats are modelled as (finite) reals
 
 
+def _next(ex, st, args, kwargs):
+    """next(iterator[, default]) on an eagerly evaluated generator / list iterator with concrete items."""
+    it = st.deref(args[0])
+    if isinstance(it, GenThunk):
+        outs = list(comprehension_thunk(ex, st, it, "list"))
+        if len(outs) != 1 or isinstance(outs[0][1], Exc):
+            raise U("next() of a generator with several outcomes")
+        st, ref = outs[0]
+        it = st.deref(ref)
+    items = it.items if isinstance(it, (PList, bm.EagerGen)) else (list(it) if isinstance(it, tuple) else None)
+    if items is None:
+        raise U(f"next() of {it!r}")
+    if items:
+        yield st, items[0]
+    elif len(args) > 1:
+        yield st, args[1]
+    else:
+        yield ex.raise_(st, "StopIteration")
+
+
 def _math_pred(name):
     """math.isinf / math.isnan: concrete on concrete floats, False on symbolic reals (modelled finite), an uninterpreted
     predicate of an abstract value."""
@@ -1137,7 +1157,7 @@ def _object(ex, st, args, kwargs):
 
 
 FUNCS = {
-    "math.isfinite": _isfinite, "math.isinf": _math_pred("isinf"), "math.isnan": _math_pred("isnan"), "object": _object,
+    "next": _next, "math.isfinite": _isfinite, "math.isinf": _math_pred("isinf"), "math.isnan": _math_pred("isnan"), "object": _object,
     "copy.deepcopy": _deepcopy, "copy.copy": _deepcopy,
     "dataclasses.fields": _dc_fields, "dataclasses.replace": _dc_replace,
     "typing.get_origin": _get_origin, "typing.get_args": _get_args,
